@@ -1,6 +1,9 @@
 package component
 
-import "io"
+import (
+	"errors"
+	"io"
+)
 
 var _ DataComponent = (*Trim)(nil)
 
@@ -14,7 +17,7 @@ func (Trim) ID() string {
 
 // ReadFrom implements DataComponent.
 func (t *Trim) ReadFrom(r io.Reader) (n int64, err error) {
-	panic("unimplemented")
+	return 0, errors.New("component: ReadFrom is not implemented")
 }
 
 // WriteTo implements DataComponent.
